@@ -20,6 +20,7 @@ use crate::delta::parser::tokens::Tokens;
 
 pub const MAX_ADDRESS_DEPTH: u8 = 127;
 pub const MAX_REFERENCE_DEPTH: usize = 127;
+pub const MAX_NESTING_DEPTH: usize = 127;
 
 #[derive(Debug, Clone, Copy)]
 pub enum ParsingError
@@ -495,6 +496,17 @@ fn parse_inner_type(
 	buffer: &mut ParseBuffer<'_>,
 ) -> Result<NodeId, ParsingError>
 {
+	buffer.start_nested(tokens.cursor())?;
+	let result = parse_unnested_inner_type(tokens, buffer);
+	buffer.end_nested();
+	result
+}
+
+fn parse_unnested_inner_type(
+	tokens: &mut Tokens<'_>,
+	buffer: &mut ParseBuffer<'_>,
+) -> Result<NodeId, ParsingError>
+{
 	let token_id = tokens.cursor();
 	let node_id = match tokens.take()
 	{
@@ -613,6 +625,17 @@ fn parse_rest_of_block(
 }
 
 fn parse_statement(
+	tokens: &mut Tokens<'_>,
+	buffer: &mut ParseBuffer<'_>,
+) -> Result<NodeId, ParsingError>
+{
+	buffer.start_nested(tokens.cursor())?;
+	let result = parse_unnested_statement(tokens, buffer);
+	buffer.end_nested();
+	result
+}
+
+fn parse_unnested_statement(
 	tokens: &mut Tokens<'_>,
 	buffer: &mut ParseBuffer<'_>,
 ) -> Result<NodeId, ParsingError>
@@ -945,7 +968,10 @@ fn parse_expression(
 	buffer: &mut ParseBuffer<'_>,
 ) -> Result<NodeId, ParsingError>
 {
-	parse_addition(tokens, buffer)
+	buffer.start_nested(tokens.cursor())?;
+	let result = parse_addition(tokens, buffer);
+	buffer.end_nested();
+	result
 }
 
 fn parse_addition(
